@@ -450,6 +450,23 @@ def _loop_parts(f):
     return pre, outer
 
 
+def _break_monotone(cond, loopvars):
+    """cond = (('affcmp', op, d), val): true once => true for every larger
+    value of the loop variables"""
+    if not cond or not isinstance(cond[0], tuple) or cond[0][0] != 'affcmp':
+        return False
+    (_k, op, d), val = cond
+    co = [d.coeffs.get(v, 0) for v in loopvars]
+    if not any(co):
+        return True               # does not depend on the loop position
+    up = {ast.Gt: True, ast.GtE: True, ast.Lt: False, ast.LtE: False}.get(op)
+    if up is None:
+        return False
+    if not val:
+        up = not up
+    return all(c >= 0 for c in co) if up else all(c <= 0 for c in co)
+
+
 def rule_gfx(ctx, res, sizes):
     G = 'pico8.gfx.gfx:Gfx'
     # ---- set_sprite -------------------------------------------------------
@@ -478,8 +495,27 @@ def rule_gfx(ctx, res, sizes):
     env = {'id': Aff.sym('id'), 'tile_x_offset': Aff.sym('tile_x_offset'),
            'tile_y_offset': Aff.sym('tile_y_offset'), xv: Aff.sym(xv),
            yv: Aff.sym(yv), valv: BV.source(('sym', 'val'), 4)}
+    k_in = outer.body.index(inner[0])
+    if outer.body[k_in + 1:]:
+        res.undecided('R-C17-bounds', f.qual, 'loops',
+                      'statements after the pixel loop in the row loop')
+        return
+    n_outer = len(pre) + k_in
     ev, ps = LY.run_method(ctx, G + '.set_sprite', env, r,
-                           body=pre + inner[0].body)
+                           body=pre + outer.body[:k_in] + inner[0].body)
+    # a `break` ends this and every later iteration: it only equals "skip
+    # this pixel" when its condition, once true, stays true as the loop
+    # variable grows
+    for p in ps:
+        for a in p.assume:
+            if a and a[0] == 'break':
+                mono = _break_monotone(a[1], (xv, yv))
+                res.check(mono, 'R-C17-frame', f.qual,
+                          'set_sprite: break condition is monotone in the '
+                          'loop variable', '',
+                          'a break under a condition that can become false '
+                          'again skips pixels that lie inside the sheet',
+                          f.loc)
     n = check_bounds(ctx, res, ev, f, sizes, 'set_sprite', stride=64)
     if n == 0:
         res.vanished('R-C17-bounds', f.qual, 'accesses', 'no region access')
